@@ -494,7 +494,8 @@ def lat3(ctx):
         strides = {k: comps[k][1] for k in range(len(comps))}
         # get_site_num
         from ..model import returned_values
-        rets = [v_ for _, v_ in returned_values(gsn.node)]
+        from ..model import norm
+        rets = [v_ for _, v_ in returned_values(norm(gsn.node))]
         pname = [p.name for p in gsn.params if p.name != "self"][0]
         lf = _linear_form(rets[0], pname, {}) if len(rets) == 1 else None
         if lf is None:
@@ -521,7 +522,9 @@ def _adjacency(ctx, ci, cam: FuncInfo, strides, comps, total):
     bounds tests of the right shape."""
     env: Dict[str, Mono] = {}
     loops: Dict[str, Mono] = {}  # loop var -> extent monomial
-    for st in ast.walk(cam.node):
+    from ..model import norm
+    cnode = norm(cam.node)          # single-use temporaries substituted into their use
+    for st in ast.walk(cnode):
         if isinstance(st, ast.Assign) and len(st.targets) == 1:
             t, v = st.targets[0], st.value
             if isinstance(t, ast.Tuple) and isinstance(v, ast.Tuple) and len(t.elts) == len(v.elts):
@@ -533,7 +536,7 @@ def _adjacency(ctx, ci, cam: FuncInfo, strides, comps, total):
                 m = _mono(v, env)
                 if m is not None:
                     env[t.id] = m
-    for st in ast.walk(cam.node):
+    for st in ast.walk(cnode):
         if isinstance(st, ast.For) and isinstance(st.target, ast.Name) and isinstance(st.iter, ast.Call) \
                 and dotted(st.iter.func) == "range" and len(st.iter.args) == 1:
             m = _mono(st.iter.args[0], env)
@@ -541,7 +544,7 @@ def _adjacency(ctx, ci, cam: FuncInfo, strides, comps, total):
                 loops[st.target.id] = m
     # the position handed to get_nearest_neighbors
     pos_call = None
-    for nd in ast.walk(cam.node):
+    for nd in ast.walk(cnode):
         if isinstance(nd, ast.Call) and isinstance(nd.func, ast.Attribute) and \
                 nd.func.attr == "get_nearest_neighbors" and nd.args:
             pos_call = nd
@@ -558,7 +561,7 @@ def _adjacency(ctx, ci, cam: FuncInfo, strides, comps, total):
             rem.remove(x)
         extent[k] = tuple(rem)
     site_loop_var = None   # `for site in self.sites` / `for k, site in enumerate(self.sites)`
-    for st in ast.walk(cam.node):
+    for st in ast.walk(cnode):
         if isinstance(st, ast.For):
             it, tg = st.iter, st.target
             if isinstance(it, ast.Call) and dotted(it.func) == "enumerate" and it.args and isinstance(tg, ast.Tuple) \
@@ -588,26 +591,26 @@ def _adjacency(ctx, ci, cam: FuncInfo, strides, comps, total):
                "1-D: position == site number", cam, nontrivial=False)
     # linear index assignments  i = q*width + r ; j = nq*width + nr
     idx_forms = []
-    for st in ast.walk(cam.node):
+    for st in ast.walk(cnode):
         if isinstance(st, ast.Assign) and len(st.targets) == 1 and isinstance(st.targets[0], ast.Name):
             names = {n.id for n in ast.walk(st.value) if isinstance(n, ast.Name)}
             if isinstance(st.value, ast.BinOp) and isinstance(st.value.op, ast.Add):
                 idx_forms.append((st.targets[0].id, st.value, st.lineno))
     # neighbour unpack variables (for nq, nr in neighbors)
     nb_vars = None
-    for st in ast.walk(cam.node):
+    for st in ast.walk(cnode):
         if isinstance(st, ast.For) and isinstance(st.target, ast.Tuple):
             nb_vars = [e.id for e in st.target.elts if isinstance(e, ast.Name)]
     nb_name = None
-    for st in ast.walk(cam.node):
+    for st in ast.walk(cnode):
         if isinstance(st, ast.For) and isinstance(st.target, ast.Name) and st.target.id != site_loop_var:
             roots = {n.id for n in ast.walk(st.iter) if isinstance(n, ast.Name)}
             calls = [n for n in ast.walk(st.iter) if n is pos_call]
-            nb_src = {t.id for a in ast.walk(cam.node) if isinstance(a, ast.Assign) and any(n is pos_call for n in ast.walk(a.value))
+            nb_src = {t.id for a in ast.walk(cnode) if isinstance(a, ast.Assign) and any(n is pos_call for n in ast.walk(a.value))
                       for t in a.targets if isinstance(t, ast.Name)}
             if calls or roots & nb_src:
                 nb_name = st.target.id
-    for st in ast.walk(cam.node):
+    for st in ast.walk(cnode):
         if isinstance(st, ast.Assign) and len(st.targets) == 1 and isinstance(st.targets[0], ast.Name):
             for c in ast.walk(st.value):
                 if isinstance(c, ast.Call) and isinstance(c.func, ast.Attribute) and c.func.attr == "get_site_num" \
@@ -630,7 +633,7 @@ def _adjacency(ctx, ci, cam: FuncInfo, strides, comps, total):
                    ok, f"index strides {coeffs}, get_site_num strides {want}", cam, line)
     # paired stores h[a,b] / h[b,a]
     stores = []
-    for st in ast.walk(cam.node):
+    for st in ast.walk(cnode):
         if isinstance(st, ast.Assign) and isinstance(st.targets[0], ast.Subscript):
             t = st.targets[0]
             if isinstance(t.slice, ast.Tuple) and len(t.slice.elts) == 2:
@@ -647,7 +650,7 @@ def _adjacency(ctx, ci, cam: FuncInfo, strides, comps, total):
                True, f"{len(stores)} stores paired", cam)
     # bounds tests
     tested: Dict[int, List[ast.Compare]] = {}
-    for nd in ast.walk(cam.node):
+    for nd in ast.walk(cnode):
         if isinstance(nd, ast.Compare) and len(nd.ops) == 2:
             mid = nd.comparators[0]
             k = None
@@ -667,7 +670,7 @@ def _adjacency(ctx, ci, cam: FuncInfo, strides, comps, total):
                        f"`{ast.unparse(nd)}` must be 0 <= n < {extent[k]}", cam, nd.lineno)
     # which axes are tested on the path to every adjacency store
     guarded: Dict[int, bool] = {}
-    store_nodes = [st for st in ast.walk(cam.node) if isinstance(st, ast.Assign) and
+    store_nodes = [st for st in ast.walk(cnode) if isinstance(st, ast.Assign) and
                    isinstance(st.targets[0], ast.Subscript) and isinstance(st.targets[0].slice, ast.Tuple)]
 
     def dominating_tests(target) -> List[ast.AST]:
@@ -686,7 +689,7 @@ def _adjacency(ctx, ci, cam: FuncInfo, strides, comps, total):
                             return True
             return False
 
-        walk(cam.node.body, [])
+        walk(cnode.body, [])
         return out
 
     for k, cmps in tested.items():
